@@ -14,7 +14,8 @@ RULE = ('one case = a fault-free prefix history (1..3 commands, 1..2 users) and 
         'seeded schedule. The victim is first run to completion to count its backend mutation commits M and backend calls C; it is then '
         're-run from the identical pre-state (store, RNG streams, clock) once per crash index 0..M-1 (all of them when M <= 48, else a '
         'seeded sample incl. first/last; calls in flight at the crash instant independently applied or dropped) and once per call index '
-        'with that call failing for good (not applied, or applied with the acknowledgement lost). After each fault, fresh fault-free '
+        'with that call failing for good (not applied, or applied with the acknowledgement lost); for delete / clean additionally once per stored '
+        'snapshot object with that object temporarily unreadable (download fails, exists denies it, listing still shows it). After each fault, fresh fault-free '
         'processes must find: listed snapshots = acknowledged ones (+ the victim\'s if its object exists / - a subset of the deleted), '
         'every listed snapshot complete under the independent reader, list + new snapshot + clean succeed, afterwards the family\'s '
         'chunk objects == referenced chunks and every listed snapshot restores to its captured contents. evaluations = fault points '
@@ -26,7 +27,7 @@ COMPONENTS = {
 }
 ASSUMPTIONS = ['process-kill crash model (completed backend mutations persist)', 'SimStore objects are atomic; torn local files are covered by the Local FS-seam profile of C12/C13',
                'enumeration is complete per sampled victim run, sampled over runs']
-PROBES = ['local_backend', 'torn_write', 'fs_errno', 'victim_snapshot', 'victim_delete', 'victim_clean', 'crash', 'crash_inflight_commit', 'fail_before', 'fail_after', 'orphans_collected', 'victim_snapshot_visible_after_lost_ack']
+PROBES = ['local_backend', 'torn_write', 'fs_errno', 'victim_snapshot', 'victim_delete', 'victim_clean', 'crash', 'crash_inflight_commit', 'fail_before', 'fail_after', 'unavailable', 'orphans_collected', 'victim_snapshot_visible_after_lost_ack']
 TIERS = {'quick': {'budget_s': 55, 'batch': 1}, 'thorough': {'budget_s': 900, 'batch': 4}}
 MAX_POINTS = 48
 
@@ -291,6 +292,10 @@ def run_case(case):
             plan.append(('fail', j, 'before'))
         for j in fail_points[::2]:
             plan.append(('fail', j, 'after'))
+        if local is None and victim['op'] in ('delete', 'clean'):
+            # one snapshot object temporarily cannot be read (download fails, exists denies it) although it is still listed
+            for loc in sorted(k for k in fork.state0.objects if k.startswith('snapshots/'))[:4]:
+                plan.append(('unavail', loc, None))
         for fault in plan:
             fork.restore()
             before = dict(H.W.state.objects)
@@ -303,6 +308,8 @@ def run_case(case):
                     kind = base_syscalls[fault[1]][0] if fault[1] < len(base_syscalls) else 'write'
                     skip = sum(1 for k, _ in base_syscalls[:fault[1]] if k == kind)
                     local.next_plan.fail_next(kind, 'EIO' if fault[2] == 'before' else 'ENOSPC', count=10**9, skip=skip)
+            elif fault[0] == 'unavail':
+                prof = H.W.profile(unavailable=[fault[1]])
             elif fault[0] == 'crash':
                 prof = H.W.profile(crash_at=fault[1], crash_commit_inflight=substream(case['sample_seed'], f'inflight{fault[1]}'))
             else:
